@@ -381,6 +381,8 @@ def run(chk: core.Check):
     try:
         translated = c13_translate.translate()
         c13_translate.write_gen(gen_path, translated["text"])
+        for problem in translated["problems"]:
+            chk.broken.append({"kind": "translate", "what": "c13_translate: entropy primitives of the source differ from the classified ones", "detail": problem})
         chk.stages["translate"] = {
             "sites": [{"id": s["id"], "tag": list(s["tag"]), "phases": s["phases"], "neg_only": s["neg_only"], "multipart_only": s["multipart_only"],
                        "in_request": s["in_request"], "where": s["where"]} for s in translated["sites"]],
@@ -426,7 +428,7 @@ def run(chk: core.Check):
         Scenario("stateful-failing", stateful_schema(), ["stateful"], responder="fail500", max_examples=4, strict=True),
         Scenario("stateful-negative", stateful_schema(), ["stateful"], ["negative"], max_examples=3),
     ]
-    n_random = (5 if quick else 40) * mult
+    n_random = (5 if quick else 100) * mult
     for i in range(n_random):
         kind = i % 5
         n_ops = rng.randint(1, 4)
@@ -452,7 +454,7 @@ def run(chk: core.Check):
         jobs.append((sc, "C", sc.spec(s), hash_b))
     # workers: 1 vs 2 vs 3 on safe multi-operation schemas, unit phases
     wscen = []
-    for i in range((2 if quick else 10) * mult):
+    for i in range((2 if quick else 20) * mult):
         sc = Scenario(f"workers{i}", gen_schema(rng, rng.randint(3, 5), examples=True), ["examples", "coverage", "fuzzing"], strict=True)
         seeds[sc.name] = rng.randrange(1, 10**6)
         wscen.append(sc)
